@@ -2,7 +2,7 @@
   Props/C03Circuit.lean — recovery at the circuit level: what the circuit does with the closer's answers (every
   closer), and the composition with the hystrix closer.
 -/
-import CircuitProofs.Props.C03
+import CircuitProofs.Props.C03Closer
 import CircuitProofs.Props.CircuitCommon
 import CircuitProofs.Lemmas.CircuitD
 namespace CM.Props.C03
@@ -24,32 +24,45 @@ theorem closes_iff_closer_says_so {σo σc : Type} (O : OpenerI σo) (C : Closer
     let closer1 := (C.allow c.closer c.clock).1
     (r.1.isOpen = false ↔ (k = .success ∧ (C.shouldClose (C.onRun closer1 .success doneT total) doneT).2 = true)) ∧
     (r.1.isOpen = false → Emit.closed doneT ∈ r.2.1.emits) := by
-  sorry
+  intro r k doneT total closer1
+  exact closes_core O C c op sc hen hfo hfc hopen hrun hnp hallow (hpv c.opener) hthr
 
 /-- while ForceOpen is set nothing closes the circuit -/
 theorem forceOpen_blocks_closing {σo σc : Type} (O : OpenerI σo) (C : CloserI σc) (c : Circ σo σc)
     (h : c.cfg.forceOpen = true) (op : CircOp σo σc) (hop : ∀ cfg, op ≠ .setcfg cfg) :
     let r := stepOp O C c op
     (∀ t, Emit.closed t ∉ r.2) ∧ (c.isOpen = true → r.1.isOpen = true) := by
-  sorry
+  intro r
+  obtain ⟨a, b⟩ := stepOp_forceOpen O C c h op hop
+  exact ⟨a, fun hc => b.trans hc⟩
 
 /-- once closed (and not forced open) every call is admitted again -/
 theorem closed_admits_all {σo σc : Type} (C : CloserI σc) (c : Circ σo σc) (h : isOpenEff c = false) :
     actualAdmission C c = true := by
-  sorry
+  unfold actualAdmission
+  rw [h]
+  rfl
 
 /-- HYSTRIX CLOSER, sentence 1 at the circuit level: while the gate's nextOpen lies after the call's start reading,
     an open (not forced-closed) circuit does not admit the call, whatever the gate's other state -/
 theorem hystrix_not_admitted_before_nextOpen (c : Circ OState CState) (h : HCloser)
     (hc : c.closer = .hystrix h) (hopen : isOpenEff c = true) (hnext : h.tc.nextAfter c.clock = true) :
     actualAdmission closerI c = false := by
-  sorry
+  have hcheck : (h.tc.check c.clock).2 = false := by
+    unfold TC.check
+    rw [hnext]
+    split <;> rfl
+  unfold actualAdmission
+  rw [hopen, hc]
+  cases c.cfg.forceOpen with
+  | true => rfl
+  | false => exact hcheck
 
 /-- HYSTRIX CLOSER, sentence 3 at the circuit level: the closer's ShouldClose after being told of a success is
     `succ + 1 ≥ required` -/
 theorem hystrix_shouldClose_after_success (h : HCloser) (t d : Int) :
     (closerI.shouldClose (closerI.onRun (.hystrix h) .success t d) t).2 = decide (h.succ + 1 ≥ h.required) := by
-  sorry
+  rfl
 
 /-- and a failure or timeout resets the count, bad requests / interrupts / rejections / short-circuits leave it -/
 theorem hystrix_count_moves (h : HCloser) (k : Kind) (t d : Int) :
@@ -58,6 +71,6 @@ theorem hystrix_count_moves (h : HCloser) (k : Kind) (t d : Int) :
        | .success => { h with succ := h.succ + 1 }
        | .failure | .timeout => { h with succ := 0 }
        | _ => h) := by
-  sorry
+  cases k <;> rfl
 
 end CM.Props.C03
